@@ -52,6 +52,9 @@ Section SeqProofs.
   (* ==================================================================== LogFile *)
   Implicit Types (s : lf A) (o : sop_t A).
 
+  Lemma roll_test_gt last now : LogFile_roll_guard_is_gt = true -> roll_test last now = (last <? now).
+  Proof. intros H. unfold roll_test. rewrite H. reflexivity. Qed.
+
   Definition groups_ok s (chunks : list (list A)) : Prop :=
     files s <> [] /\
     exists groups : list (list (list A)),
@@ -73,7 +76,7 @@ Section SeqProofs.
     groups_ok s chunks -> groups_ok (fst (roll now s)) chunks.
   Proof.
     intros [Hne [groups [HF Hc]]]. unfold roll.
-    destruct (lastRoll s <? now); cbn [fst]; [|split; [exact Hne|exists groups; auto]].
+    destruct (roll_test (lastRoll s) now); cbn [fst]; [|split; [exact Hne|exists groups; auto]].
     split; [cbn [files]; discriminate|].
     exists ([] :: groups). cbn [files]. split.
     - constructor; [reflexivity|exact HF].
@@ -114,10 +117,13 @@ Section SeqProofs.
       rewrite app_assoc. apply IH. apply groups_step. exact H.
   Qed.
 
+  Lemma roll_test_0 now : 0 < now -> roll_test 0 now = true.
+  Proof. intros H. unfold roll_test. destruct LogFile_roll_guard_is_gt; [apply Z.ltb_lt|apply Z.leb_le]; lia. Qed.
+
   Lemma groups_new now : 0 < now -> groups_ok (lf_new now) [].
   Proof.
     intros Hn. unfold lf_new, roll. cbn [lastRoll].
-    destruct (Z.ltb_spec 0 now) as [_|Hc]; [|lia]. cbn [fst].
+    rewrite (roll_test_0 now Hn). cbn [fst].
     split; [cbn [files]; discriminate|]. exists [[]]. cbn [files]. split.
     - constructor; [reflexivity|constructor].
     - reflexivity.
@@ -169,12 +175,15 @@ Section SeqProofs.
   Qed.
 
   (* ---- at most one new file per second: names strictly increase with creation ---- *)
+  Hypothesis Hguard : LogFile_roll_guard_is_gt = true.
+
   Definition names_ok s : Prop :=
     StronglySorted (fun a b => b < a) (map fst (files s)) /\ Forall (fun n => n <= lastRoll s) (map fst (files s)).
 
   Lemma names_roll s now : names_ok s -> names_ok (fst (roll now s)).
   Proof.
-    intros [Hs Hf]. unfold roll. destruct (Z.ltb_spec (lastRoll s) now) as [Hlt|Hge]; cbn [fst]; [|split; assumption].
+    intros [Hs Hf]. unfold roll. rewrite (roll_test_gt _ _ Hguard).
+    destruct (Z.ltb_spec (lastRoll s) now) as [Hlt|Hge]; cbn [fst]; [|split; assumption].
     split; cbn [files map fst lastRoll].
     - constructor; [exact Hs|]. eapply Forall_impl; [|exact Hf]. cbn. intros a Ha. lia.
     - constructor; [lia|]. eapply Forall_impl; [|exact Hf]. cbn. intros a Ha. lia.
@@ -242,7 +251,8 @@ Section SeqProofs.
   (* a roll creates a file only when the clock is past the previous creation second *)
   Lemma roll_guard now s : snd (roll now s) = true -> lastRoll s < now /\ lastRoll (fst (roll now s)) = now.
   Proof.
-    unfold roll. destruct (Z.ltb_spec (lastRoll s) now); cbn [fst snd]; [auto|discriminate].
+    unfold roll. rewrite (roll_test_gt _ _ Hguard).
+    destruct (Z.ltb_spec (lastRoll s) now); cbn [fst snd]; [auto|discriminate].
   Qed.
 End SeqProofs.
 
@@ -252,11 +262,20 @@ Section AsyncProofs.
   Variable rlen : R -> Z.
   Variable P : params.
   Hypothesis HP : params_ok P = true.
+  Hypothesis Hfit : p_fit_gt P = true.
 
   Notation astate := (ast R).
   Notation stepP := (step R rlen P).
   Notation reachP := (reach R rlen P).
   Notation renderP := (render_batch R P).
+  Notation pending := (pending R P).
+  Notation fin_part := (fin_part R).
+  Notation dropping := (dropping R P).
+  Notation dropped_ofP := (dropped_of R P).
+  Notation kept_ofP := (kept_of R P).
+
+  Lemma fits_gt r (b : buf R) : fits R rlen P r b = (rlen r <? p_cap P - blen b).
+  Proof. unfold fits. rewrite Hfit. reflexivity. Qed.
 
   Lemma params_facts : (2 <= p_keep P)%nat /\ (2 <= p_rkeep P)%nat /\ (p_keep P <= p_thr P)%nat /\ 0 < p_cap P.
   Proof.
@@ -268,11 +287,8 @@ Section AsyncProofs.
 
   Definition small (r : R) : Prop := rlen r < p_cap P.
 
-  Ltac prj := cbn [sh be gh progs cur nxt bufs running pc nb1 nb2 twn fault hist mark swapmark batches
+  Ltac prj := cbn [sh be gh progs cur nxt bufs running pc nb1 nb2 twn fault hist owner mark swapmark batches
                    fbatch dropped out joined emit set_pc set_be recs blen] in *.
-
-  Definition pc_final (p : bpc R) : bool :=
-    match p with PWrite _ true | PDone => true | _ => false end.
 
   Lemma flat_app (l1 l2 : list (buf R)) : flat (l1 ++ l2) = flat l1 ++ flat l2.
   Proof. unfold flat. apply flat_map_app. Qed.
@@ -298,7 +314,7 @@ Section AsyncProofs.
     flat (bufs (fe_append R rlen P r s)) ++ recs (cur (fe_append R rlen P r s)) =
     (flat (bufs s) ++ recs (cur s)) ++ [r].
   Proof.
-    intros Hr. unfold fe_append.
+    intros Hr. unfold fe_append. rewrite fits_gt.
     destruct (rlen r <? p_cap P - blen (cur s)) eqn:E; prj.
     - unfold buf_append. rewrite E. prj. rewrite app_assoc. reflexivity.
     - unfold buf_append. cbn [empty_buf blen recs].
@@ -368,17 +384,6 @@ Section AsyncProofs.
       unfold inv_hist, taken in *. prj. rewrite Epc in *. repeat split; auto.
   Qed.
   (* ------------------------------------------------------------------ invariant 2: output accounting *)
-  Definition pending (p : bpc R) : list (oev R) :=
-    match p with
-    | PAnn batch => renderP batch
-    | PWriteAnn batch => OFileAnn (length batch - p_keep P) :: map OBuf (firstn (p_keep P) batch) ++ [OFlush]
-    | PWrite todo _ => map OBuf todo ++ [OFlush]
-    | _ => []
-    end.
-
-  Definition fin_part (s : astate) : list (oev R) :=
-    if pc_final (pc (be s)) then map OBuf (fbatch (gh s)) ++ [OFlush] else [].
-
   Definition inv_out (s : astate) : Prop :=
     out (gh s) ++ pending (pc (be s)) = flat_map renderP (batches (gh s)) ++ fin_part s /\
     (pc_final (pc (be s)) = false -> fbatch (gh s) = []) /\
@@ -449,7 +454,7 @@ Section AsyncProofs.
   Proof. unfold inv_stop, init. prj. cbn [pc_final]. repeat split; intros; try discriminate; auto. Qed.
 
   Lemma fe_append_running r (s : shared_t R) : running (fe_append R rlen P r s) = running s.
-  Proof. unfold fe_append. destruct (rlen r <? p_cap P - blen (cur s)); reflexivity. Qed.
+  Proof. unfold fe_append. destruct (fits R rlen P r (cur s)); reflexivity. Qed.
 
   Lemma loop_head_stop (x : astate) :
     (running (sh x) = true -> mark (gh x) = None) ->
@@ -542,8 +547,8 @@ Section AsyncProofs.
     ((nxt s = false -> bufs s <> []) -> nxt (fe_append R rlen P r s) = false -> bufs (fe_append R rlen P r s) <> []).
   Proof.
     destruct params_facts as [_ [_ [_ Hc]]].
-    intros Hcur Hb. unfold fe_append, lt_cap in *.
-    destruct (Z.ltb_spec (rlen r) (p_cap P - blen (cur s))) as [Hfit|Hno]; prj.
+    intros Hcur Hb. unfold fe_append, lt_cap in *. rewrite fits_gt.
+    destruct (Z.ltb_spec (rlen r) (p_cap P - blen (cur s))) as [Hyes|Hno]; prj.
     - unfold buf_append. destruct (Z.ltb_spec (rlen r) (p_cap P - blen (cur s))); prj; repeat split; auto; lia.
     - unfold buf_append. cbn [empty_buf blen].
       repeat split.
@@ -607,4 +612,375 @@ Section AsyncProofs.
       destruct (joined (gh s)); inversion Hstep; subst s'; clear Hstep.
       unfold inv_bound in *. prj. rewrite ?Epc in *. repeat split; auto.
   Qed.
+
+  (* ------------------------------------------------------------------ invariant 5: the overload valve *)
+  Definition inv_drop (s : astate) : Prop :=
+    dropped (gh s) ++ dropping (pc (be s)) = flat_map dropped_ofP (batches (gh s)).
+
+  Lemma inv_drop_init progs0 : inv_drop (init progs0).
+  Proof. unfold inv_drop, init. prj. reflexivity. Qed.
+
+  Lemma loop_head_drop (x : astate) :
+    dropped (gh x) = flat_map dropped_ofP (batches (gh x)) -> inv_drop (loop_head R P x).
+  Proof.
+    intros Hd. destruct (loop_head_shape x) as [p [E Hcase]]. rewrite E. unfold inv_drop. prj.
+    destruct Hcase as [[Hp _]|[[Hp _]|[Hp _]]]; subst p; cbn [C16_Model.dropping]; rewrite app_nil_r; exact Hd.
+  Qed.
+
+  Lemma do_swap_drop s :
+    dropped (gh s) = flat_map dropped_ofP (batches (gh s)) -> inv_drop (do_swap R P s).
+  Proof.
+    intros Hd. unfold inv_drop, do_swap. prj. rewrite flat_map_app. cbn [flat_map]. rewrite app_nil_r, <- Hd.
+    unfold dropped_of.
+    destruct (p_thr P <? length (bufs (sh s) ++ [cur (sh s)]))%nat; cbn [C16_Model.dropping]; reflexivity.
+  Qed.
+
+  Lemma inv_drop_step s l s' : inv_drop s -> stepP s l = Some s' -> inv_drop s'.
+  Proof.
+    intros Hd Hstep. unfold inv_drop in Hd. destruct l as [t| | |]; cbn [step] in Hstep.
+    - destruct (nth_error (progs s) t) as [[|r rest]|]; try discriminate.
+      inversion Hstep; subst s'; clear Hstep. unfold inv_drop. prj. exact Hd.
+    - unfold be_step in Hstep.
+      destruct (pc (be s)) as [| | |batch|batch|[|b rest] [|]| |] eqn:Epc; inversion Hstep; subst s'; clear Hstep;
+        cbn [C16_Model.dropping] in Hd; rewrite ?app_nil_r in Hd.
+      + apply loop_head_drop. exact Hd.
+      + destruct (bufs (sh s)) eqn:Eb.
+        * unfold inv_drop. prj. cbn [C16_Model.dropping]. rewrite app_nil_r. exact Hd.
+        * apply do_swap_drop. exact Hd.
+      + apply do_swap_drop. exact Hd.
+      + unfold inv_drop. prj. cbn [C16_Model.dropping]. exact Hd.
+      + unfold inv_drop. prj. cbn [C16_Model.dropping]. rewrite app_nil_r. exact Hd.
+      + unfold inv_drop. prj. cbn [C16_Model.dropping]. rewrite app_nil_r. exact Hd.
+      + apply loop_head_drop. prj. exact Hd.
+      + unfold inv_drop. prj. cbn [C16_Model.dropping]. rewrite app_nil_r. exact Hd.
+      + unfold inv_drop. prj. cbn [C16_Model.dropping]. rewrite app_nil_r. exact Hd.
+      + unfold inv_drop, do_final_swap. prj. cbn [C16_Model.dropping]. rewrite app_nil_r. exact Hd.
+    - destruct (mark (gh s)); inversion Hstep; subst s'; clear Hstep.
+      unfold inv_drop. prj. exact Hd.
+    - destruct (mark (gh s)); try discriminate. destruct (pc (be s)) eqn:Epc; try discriminate.
+      destruct (joined (gh s)); inversion Hstep; subst s'; clear Hstep.
+      unfold inv_drop. prj. rewrite Epc. exact Hd.
+  Qed.
+
+  (* ------------------------------------------------------------------ invariant 6: per-thread order *)
+  Definition inv_owner (progs0 : list (list R)) (s : astate) : Prop :=
+    length (owner (gh s)) = length (hist (gh s)) /\
+    forall t, per_thread t (gh s) ++ nth t (progs s) [] = nth t progs0 [].
+
+  Lemma inv_owner_init progs0 : inv_owner progs0 (init progs0).
+  Proof. unfold inv_owner, init, per_thread. prj. split; [reflexivity|]. intros t. reflexivity. Qed.
+
+  Lemma combine_snoc {X Y} (a : list X) (b : list Y) x y :
+    length a = length b -> combine (a ++ [x]) (b ++ [y]) = combine a b ++ [(x, y)].
+  Proof.
+    revert b; induction a as [|h a IH]; intros [|k b] Hl; cbn [length] in Hl; try discriminate; cbn [app combine].
+    - reflexivity.
+    - rewrite IH by lia. reflexivity.
+  Qed.
+
+  Lemma nth_upd_nth_eq {X} (l : list X) n x d : (n < length l)%nat -> nth n (upd_nth n x l) d = x.
+  Proof.
+    revert n; induction l as [|h l IH]; intros [|n] Hn; cbn [length] in Hn; try lia; cbn [upd_nth nth]; [reflexivity|].
+    apply IH. lia.
+  Qed.
+
+  Lemma nth_upd_nth_neq {X} (l : list X) n m x d : n <> m -> nth m (upd_nth n x l) d = nth m l d.
+  Proof.
+    revert n m; induction l as [|h l IH]; intros [|n] [|m] Hn; cbn [upd_nth nth]; try reflexivity; try congruence.
+    apply IH. congruence.
+  Qed.
+
+  Lemma be_step_frame s s' :
+    be_step R P s = Some s' ->
+    hist (gh s') = hist (gh s) /\ owner (gh s') = owner (gh s) /\ progs s' = progs s.
+  Proof.
+    unfold be_step. intros Hstep.
+    destruct (pc (be s)) as [| | |batch|batch|[|b rest] [|]| |] eqn:Epc; inversion Hstep; subst s'; clear Hstep.
+    - destruct (loop_head_shape s) as [p [E _]]. rewrite E. prj. auto.
+    - destruct (bufs (sh s)); unfold do_swap; prj; auto.
+    - unfold do_swap; prj; auto.
+    - prj; auto.
+    - prj; auto.
+    - prj; auto.
+    - match goal with |- context [loop_head R P ?x] => destruct (loop_head_shape x) as [p [E _]]; rewrite E end. prj. auto.
+    - prj; auto.
+    - prj; auto.
+    - unfold do_final_swap; prj; auto.
+  Qed.
+
+  Lemma inv_owner_step progs0 s l s' : inv_owner progs0 s -> stepP s l = Some s' -> inv_owner progs0 s'.
+  Proof.
+    intros [Hl Ht] Hstep. destruct l as [t| | |]; cbn [step] in Hstep.
+    - destruct (nth_error (progs s) t) as [[|r rest]|] eqn:Ep; try discriminate.
+      inversion Hstep; subst s'; clear Hstep. unfold inv_owner, per_thread in *. prj.
+      split; [rewrite !app_length; cbn [length]; lia|].
+      intros t'. rewrite combine_snoc by exact Hl. rewrite filter_app, map_app. cbn [filter fst].
+      assert (Hlt : (t < length (progs s))%nat) by (apply nth_error_Some; congruence).
+      assert (Hn : nth t (progs s) [] = r :: rest) by (apply nth_error_nth with (d := []) in Ep; exact Ep).
+      destruct (Nat.eqb_spec t t') as [E|NE].
+      + subst t'. cbn [map snd]. rewrite nth_upd_nth_eq by exact Hlt.
+        rewrite <- (Ht t), Hn, <- app_assoc. reflexivity.
+      + cbn [map]. rewrite app_nil_r, nth_upd_nth_neq by exact NE. apply Ht.
+    - destruct (be_step_frame s s' Hstep) as [E1 [E2 E3]]. unfold inv_owner, per_thread in *.
+      rewrite E1, E2, E3. auto.
+    - destruct (mark (gh s)); inversion Hstep; subst s'; clear Hstep.
+      unfold inv_owner, per_thread in *. prj. auto.
+    - destruct (mark (gh s)); try discriminate. destruct (pc (be s)) eqn:Epc; try discriminate.
+      destruct (joined (gh s)); inversion Hstep; subst s'; clear Hstep.
+      unfold inv_owner, per_thread in *. prj. auto.
+  Qed.
+
+  (* ------------------------------------------------------------------ all invariants, every reachable state *)
+  Definition inv_all (progs0 : list (list R)) (s : astate) : Prop :=
+    inv_hist s /\ inv_out s /\ inv_stop s /\ inv_bound s /\ inv_drop s /\ inv_owner progs0 s.
+
+  Lemma inv_all_reach progs0 s :
+    Forall (Forall small) progs0 -> reachP (init progs0) s -> inv_all progs0 s.
+  Proof.
+    intros Hs Hr. induction Hr as [|s l s' Hr IH Hstep].
+    - unfold inv_all.
+      split; [apply inv_hist_init; exact Hs|]. split; [apply inv_out_init|]. split; [apply inv_stop_init|].
+      split; [apply inv_bound_init|]. split; [apply inv_drop_init|apply inv_owner_init].
+    - destruct IH as [I1 [I2 [I3 [I4 [I5 I6]]]]]. unfold inv_all.
+      split; [eapply inv_hist_step; eassumption|]. split; [eapply inv_out_step; eassumption|].
+      split; [eapply inv_stop_step; eassumption|]. split; [eapply inv_bound_step; eassumption|].
+      split; [eapply inv_drop_step; eassumption|eapply inv_owner_step; eassumption].
+  Qed.
+
+  (* ------------------------------------------------------------------ what reaches the file *)
+  Lemma written_app (a b : list (oev R)) : written_of (a ++ b) = written_of a ++ written_of b.
+  Proof. unfold written_of. apply flat_map_app. Qed.
+
+  Lemma written_bufs (l : list (buf R)) : written_of (map OBuf l) = flat l.
+  Proof. induction l as [|b l IH]; [reflexivity|]. cbn [map]. change (written_of (OBuf b :: map OBuf l)) with (recs b ++ written_of (map OBuf l)). rewrite IH. reflexivity. Qed.
+
+  Lemma written_render batch : written_of (renderP batch) = flat (kept_ofP batch).
+  Proof.
+    unfold render_batch, kept_of. destruct (p_thr P <? length batch)%nat.
+    - rewrite !written_app, written_bufs. cbn. apply app_nil_r.
+    - rewrite written_app, written_bufs. cbn. apply app_nil_r.
+  Qed.
+
+  Lemma written_renders bs : written_of (flat_map renderP bs) = flat (flat_map kept_ofP bs).
+  Proof.
+    induction bs as [|b bs IH]; [reflexivity|]. cbn [flat_map]. rewrite written_app, flat_app, written_render, IH. reflexivity.
+  Qed.
+
+  Lemma kept_dropped batch : kept_ofP batch ++ dropped_ofP batch = batch.
+  Proof.
+    unfold kept_of, dropped_of. destruct (p_thr P <? length batch)%nat; [apply firstn_skipn|apply app_nil_r].
+  Qed.
+
+  (* the rendering of a batch, spelled out: an announcement (stderr and file) exactly when buffers are
+     erased, carrying their number; the erased ones are the buffers after the first p_keep *)
+  Lemma render_cases batch :
+    ((length batch <= p_thr P)%nat /\ dropped_ofP batch = [] /\ kept_ofP batch = batch /\
+       renderP batch = map OBuf batch ++ [OFlush]) \/
+    ((p_thr P < length batch)%nat /\ dropped_ofP batch = skipn (p_keep P) batch /\ dropped_ofP batch <> [] /\
+       kept_ofP batch = firstn (p_keep P) batch /\ length (kept_ofP batch) = p_keep P /\
+       renderP batch = [OStderr (length (dropped_ofP batch)); OFileAnn (length (dropped_ofP batch))]
+                          ++ map OBuf (kept_ofP batch) ++ [OFlush]).
+  Proof.
+    destruct params_facts as [Hk [_ [Hkt _]]].
+    unfold render_batch, kept_of, dropped_of. destruct (Nat.ltb_spec (p_thr P) (length batch)) as [Hgt|Hle].
+    - right. rewrite skipn_length, firstn_length. repeat split; auto; try lia.
+      intros Hnil. pose proof (skipn_length (p_keep P) batch) as HL. rewrite Hnil in HL. cbn [length] in HL. lia.
+    - left. auto.
+  Qed.
+
+  Theorem async_exactly_once progs0 s :
+    Forall (Forall small) progs0 -> reachP (init progs0) s ->
+    hist (gh s) = taken (gh s) ++ flat (bufs (sh s)) ++ recs (cur (sh s)) /\
+    (forall t, per_thread t (gh s) ++ nth t (progs s) [] = nth t progs0 []) /\
+    length (owner (gh s)) = length (hist (gh s)) /\
+    out (gh s) ++ pending (pc (be s)) = flat_map renderP (batches (gh s)) ++ fin_part s /\
+    written_of (out (gh s)) ++ written_of (pending (pc (be s))) =
+      flat (flat_map kept_ofP (batches (gh s))) ++ (if pc_final (pc (be s)) then flat (fbatch (gh s)) else []) /\
+    (pc_final (pc (be s)) = false -> fbatch (gh s) = []).
+  Proof.
+    intros Hs Hr. destruct (inv_all_reach progs0 s Hs Hr) as [[Hh [_ [_ Hf]]] [[Ho _] [_ [_ [_ [Hl Ht]]]]]].
+    repeat split; auto.
+    rewrite <- written_app, Ho, written_app, written_renders. f_equal.
+    unfold C16_Model.fin_part. destruct (pc_final (pc (be s))); [|reflexivity].
+    rewrite written_app, written_bufs. cbn. apply app_nil_r.
+  Qed.
+
+  Theorem drop_only_announced progs0 s :
+    Forall (Forall small) progs0 -> reachP (init progs0) s ->
+    dropped (gh s) ++ dropping (pc (be s)) = flat_map dropped_ofP (batches (gh s)) /\
+    out (gh s) ++ pending (pc (be s)) = flat_map renderP (batches (gh s)) ++ fin_part s /\
+    (pc (be s) = PDone -> out (gh s) = final_out R P (gh s) /\ dropped (gh s) = flat_map dropped_ofP (batches (gh s))).
+  Proof.
+    intros Hs Hr. destruct (inv_all_reach progs0 s Hs Hr) as [_ [[Ho _] [_ [_ [Hd _]]]]].
+    unfold inv_drop in Hd. repeat split; auto.
+    - rewrite H in Ho. cbn [C16_Model.pending] in Ho. rewrite app_nil_r in Ho. rewrite Ho.
+      unfold final_out, C16_Model.fin_part. rewrite H. reflexivity.
+    - rewrite H in Hd. cbn [C16_Model.dropping] in Hd. rewrite app_nil_r in Hd. exact Hd.
+  Qed.
+
+  Theorem buffers_bounded progs0 s :
+    Forall (Forall small) progs0 -> reachP (init progs0) s ->
+    fault (be s) = false /\ blen (cur (sh s)) < p_cap P /\ Forall (fun b => blen b < p_cap P) (bufs (sh s)) /\
+    (nxt (sh s) = false -> bufs (sh s) <> [] \/ pc_final (pc (be s)) = true) /\
+    match pc (be s) with
+    | PStart | PLock | PWait | PFinalLock => nb1 (be s) = true /\ nb2 (be s) = true
+    | PWrite todo false => (length todo <= p_thr P)%nat /\ (1 <= twn (be s))%nat
+    | _ => True
+    end.
+  Proof.
+    intros Hs Hr. destruct (inv_all_reach progs0 s Hs Hr) as [_ [_ [_ [[Hf [Hc [Hb Hpc]]] _]]]].
+    repeat split; auto.
+    - intros Hn. unfold nxt_ok in Hpc.
+      destruct (pc (be s)) as [| | |batch|batch|todo [|]| |]; cbn [pc_final]; auto;
+        left; repeat match goal with H : _ /\ _ |- _ => destruct H end; auto.
+    - destruct (pc (be s)) as [| | |batch|batch|todo [|]| |]; auto;
+        repeat match goal with H : _ /\ _ |- _ => destruct H end; auto.
+  Qed.
+
+  Theorem stop_flushes progs0 s :
+    p_drain P = true ->
+    Forall (Forall small) progs0 -> reachP (init progs0) s -> stop_flushed_full R P s.
+  Proof.
+    intros Hdrain Hs Hr Hj.
+    destruct (inv_all_reach progs0 s Hs Hr) as [[Hh [Hm _]] [[Ho _] [[_ [_ [_ [H4 H5]]]] [_ [Hd _]]]]].
+    specialize (H5 Hj). rewrite H5 in *. destruct (H4 eq_refl Hdrain) as [m [Em Hle]].
+    rewrite Hm in Hle.
+    exists m, (skipn m (taken (gh s))). repeat split; auto.
+    - rewrite Hh, app_length. lia.
+    - rewrite Hh, firstn_app. replace (m - length (taken (gh s)))%nat with 0%nat by lia.
+      cbn [firstn]. rewrite app_nil_r, firstn_skipn. reflexivity.
+    - cbn [C16_Model.pending] in Ho. rewrite app_nil_r in Ho. rewrite Ho.
+      unfold final_out, C16_Model.fin_part. rewrite H5. reflexivity.
+    - unfold inv_drop in Hd. rewrite H5 in Hd. cbn [C16_Model.dropping] in Hd. rewrite app_nil_r in Hd. exact Hd.
+  Qed.
 End AsyncProofs.
+
+(* ====================================================================== AsyncLogging on top of LogFile *)
+Section ComposeProofs.
+  Variables (R A : Type) (bytes : R -> list A).
+
+  Lemma evs_ops_records es ops chs :
+    evs_ops R A bytes es ops chs -> concat (flat_map (@op_record A) ops) = concat chs.
+  Proof.
+    induction 1 as [|e o ch es os chs He Hes IH]; [reflexivity|].
+    rewrite flat_map_app, concat_app, IH. cbn [concat]. f_equal.
+    destruct He; cbn [flat_map op_record app concat]; rewrite ?app_nil_r; reflexivity.
+  Qed.
+
+  (* whatever the clock, the roll size, the flush interval and the short-write pattern: as long as the
+     stream reports no error, the files in creation order, concatenated, are the bytes of the events in
+     order, and every file consists of whole appends (a buffer is never split across two files) *)
+  Lemma compose_files c now es ops chs :
+    0 < now -> evs_ops R A bytes es ops chs ->
+    forallb (fun o => negb (op_error o)) ops = true ->
+    let s := lf_run c (lf_new now) ops in
+    concat (map snd (files_in_order s)) = concat chs /\
+    exists groups : list (list (list A)),
+      Forall2 (fun f g => snd f = concat g) (files_in_order s) groups /\
+      concat groups = flat_map (@op_record A) ops.
+  Proof.
+    intros Hn He Hok s.
+    destruct (files_concat_groups A c now ops Hn) as [groups [HF [Hg Hc]]]. fold s in HF, Hc.
+    rewrite (chunks_no_error A ops Hok) in Hg, Hc. split.
+    - rewrite Hc. eapply evs_ops_records; exact He.
+    - exists groups. split; assumption.
+  Qed.
+End ComposeProofs.
+
+(* ====================================================================== the two trees of F-8 *)
+(* the schedule of corpus/C16/f8_stop_loses_tail.case: start, lock, wait; a record; the back-end swaps
+   and is about to write; a second record; stop(); the back-end writes, flushes, tests running_,
+   leaves; join *)
+Definition f8_progs : list (list nat) := [[1; 2]]%nat.
+Definition f8_sched : list label :=
+  [LBack; LBack; LApp 0; LBack; LApp 0; LStop; LBack; LBack; LBack; LJoin].
+(* the same with the two further back-end steps of the drain (lock + swap, write) *)
+Definition f8_sched_drain : list label :=
+  [LBack; LBack; LApp 0; LBack; LApp 0; LStop; LBack; LBack; LBack; LBack; LBack; LJoin].
+Definition f8_rlen (_ : nat) : Z := 100.
+
+(* without the drain after the loop: stop() returns, record 2 (appended before the call) was never
+   taken out of currentBuffer_ *)
+Lemma stop_flushes_refuted :
+  exists progs0 sched s,
+    run nat f8_rlen (with_drain false current_params) (init progs0) sched = Some s /\
+    joined (gh s) = true /\ ~ stop_flushed nat s.
+Proof.
+  exists f8_progs, f8_sched. eexists. split; [vm_compute; reflexivity|].
+  split; [reflexivity|]. intros H. specialize (H eq_refl 2%nat eq_refl). destruct H as [rest H].
+  vm_compute in H. discriminate.
+Qed.
+
+(* with the drain (the premises are closed boolean facts about the regenerated constants; they are
+   discharged by computation in Properties_C16.v, so that this file does not depend on their values) *)
+Lemma stop_flushes_repaired :
+  params_ok (with_drain true current_params) = true -> p_fit_gt current_params = true ->
+  forall (R : Type) (rlen : R -> Z) progs0 s,
+  Forall (Forall (fun r => rlen r < p_cap current_params)) progs0 ->
+  reach R rlen (with_drain true current_params) (init progs0) s ->
+  stop_flushed_full R (with_drain true current_params) s.
+Proof.
+  intros Hok Hfit R rlen progs0 s Hs Hr.
+  exact (stop_flushes R rlen (with_drain true current_params) Hok Hfit progs0 s eq_refl Hs Hr).
+Qed.
+
+(* the verdict for the tree the generated fact describes *)
+Definition current_verdict (drain : bool) : Prop :=
+  if drain then
+    forall (R : Type) (rlen : R -> Z) progs0 s,
+      Forall (Forall (fun r => rlen r < p_cap current_params)) progs0 ->
+      reach R rlen (with_drain true current_params) (init progs0) s ->
+      stop_flushed_full R (with_drain true current_params) s
+  else
+    exists progs0 sched s,
+      run nat f8_rlen (with_drain false current_params) (init progs0) sched = Some s /\
+      joined (gh s) = true /\ ~ stop_flushed nat s.
+
+Lemma current_tree :
+  params_ok (with_drain true current_params) = true -> p_fit_gt current_params = true ->
+  current_verdict AsyncLogging_drain_after_loop /\
+  with_drain AsyncLogging_drain_after_loop current_params = current_params.
+Proof.
+  intros Hok Hfit. split; [|reflexivity].
+  unfold current_verdict. cbv [AsyncLogging_drain_after_loop].
+  first [ exact (stop_flushes_repaired Hok Hfit) | exact stop_flushes_refuted ].
+Qed.
+
+(* every length a LogStream line can have is small *)
+Lemma small_lines :
+  (LogStream_kSmallBuffer <? p_cap current_params) = true ->
+  forall n, n <= LogStream_kSmallBuffer -> n < p_cap current_params.
+Proof. intros H n Hn. apply Z.ltb_lt in H. lia. Qed.
+
+(* the theorems instantiated with the constants of the current tree *)
+Section Current.
+  Hypothesis Hok : params_ok current_params = true.
+  Hypothesis Hfit : p_fit_gt current_params = true.
+  Variables (R : Type) (rlen : R -> Z) (progs0 : list (list R)) (s : ast R).
+  Hypothesis Hlines : Forall (Forall (fun r => rlen r <= LogStream_kSmallBuffer)) progs0.
+  Hypothesis Hsm : (LogStream_kSmallBuffer <? p_cap current_params) = true.
+  Hypothesis Hr : reach R rlen current_params (init progs0) s.
+
+  Lemma lines_small : Forall (Forall (small R rlen current_params)) progs0.
+  Proof.
+    eapply Forall_impl; [|exact Hlines]. intros l Hl. eapply Forall_impl; [|exact Hl].
+    intros r Hle. unfold small. apply small_lines; assumption.
+  Qed.
+
+  Lemma current_exactly_once :
+    hist (gh s) = taken (gh s) ++ flat (bufs (sh s)) ++ recs (cur (sh s)) /\
+    (forall t, per_thread t (gh s) ++ nth t (progs s) [] = nth t progs0 []) /\
+    written_of (out (gh s)) ++ written_of (pending R current_params (pc (be s))) =
+      flat (flat_map (kept_of R current_params) (batches (gh s))) ++
+      (if pc_final (pc (be s)) then flat (fbatch (gh s)) else []) /\
+    dropped (gh s) ++ dropping R current_params (pc (be s)) =
+      flat_map (dropped_of R current_params) (batches (gh s)) /\
+    fault (be s) = false.
+  Proof.
+    pose proof lines_small as Hs.
+    destruct (async_exactly_once R rlen current_params Hok Hfit progs0 s Hs Hr) as [H1 [H2 [_ [_ [H5 _]]]]].
+    destruct (drop_only_announced R rlen current_params Hok Hfit progs0 s Hs Hr) as [H6 _].
+    destruct (buffers_bounded R rlen current_params Hok Hfit progs0 s Hs Hr) as [H7 _].
+    auto.
+  Qed.
+End Current.
